@@ -134,6 +134,7 @@ structure ClosedB (P : BSt → Prop) : Prop where
   siteCnt : ∀ s x, P s → P { s with siteCnt := x }
   emitInj : ∀ s a b c d, P s → P (s.emit (.inj a b c d))
   clock : ∀ s n, P s → P { s with now := n }
+  lastFlush : ∀ s n, P s → P { s with lastFlush := n }
   gone : ∀ s, P s → P { s with backendGone := true }
   refresh : ∀ s, P s → P (refreshCache s)
   allEmpty : ∀ s, P s → P (allEmpty s).1
@@ -873,6 +874,21 @@ theorem cleanupLoggers_ok {inj : BSt → Nat → BSt} (hi : InjOK P inj) (s : BS
         exact ih _ (fun g' hg' => hl g' (List.mem_cons_of_mem _ hg')) hstep.1 hstep.2
     exact h3 removed s1 (fun _ h => h) q1 rfl
 
+theorem flushGate_ok {inj : BSt → Nat → BSt} (hi : InjOK P inj) (s : BSt) (n : Nat) (hs : P s) : P (flushGate inj s n) := by
+  unfold flushGate
+  split
+  · exact hc.flushSinks _ hs
+  · simp only []
+    split
+    · exact hc.flushSinks _ (hc.lastFlush _ _ (hi _ 7 hs).1)
+    · exact (hi _ 7 hs).1
+
+theorem preEraseFlush_ok (s : BSt) (hs : P s) : P (preEraseFlush s) := by
+  unfold preEraseFlush
+  split
+  · exact hc.flushSinks _ hs
+  · exact hs
+
 theorem poll_ok {inj : BSt → Nat → BSt} (hi : InjOK P inj) (s : BSt) (hs : P s) : P (poll inj s) := by
   unfold poll
   have hp := populate_ok hc hi s hs
@@ -883,10 +899,10 @@ theorem poll_ok {inj : BSt → Nat → BSt} (hi : InjOK P inj) (s : BSt) (hs : P
   · split
     · exact processLowest_ok hc hi _ hp
     · exact batchLoop_ok hc hi _ _ hp
-  · have h3 := checkFailures_ok hc hi _ (hc.flushSinks _ (hi _ 5 hp).1)
+  · have h3 := checkFailures_ok hc hi _ (flushGate_ok hc hi _ (inj s1 5).cfg.flushInterval (hi _ 5 hp).1)
     have h4 := hc.allEmpty _ h3
     split
-    · exact cleanupLoggers_ok hc hi _ (hc.cleanupContexts _ h4)
+    · exact cleanupLoggers_ok hc hi _ (preEraseFlush_ok hc _ (hc.cleanupContexts _ h4))
     · exact h4
 
 theorem exitLoop_ok {inj : BSt → Nat → BSt} (hi : InjOK P inj) (tick : Nat) :
@@ -897,7 +913,7 @@ theorem exitLoop_ok {inj : BSt → Nat → BSt} (hi : InjOK P inj) (tick : Nat) 
     simp only []
     have h1 := hc.allEmpty s hs
     split
-    · exact cleanupLoggers_ok hc hi _ (hc.cleanupContexts _ (hc.flushSinks _ (checkFailures_ok hc hi _ h1)))
+    · exact cleanupLoggers_ok hc hi _ (preEraseFlush_ok hc _ (hc.cleanupContexts _ (hc.flushSinks _ (checkFailures_ok hc hi _ h1))))
     · have h2 := populate_ok hc hi _ (hc.clock _ ((allEmpty s).1.now + tick) h1)
       rcases hpe : populate inj { (allEmpty s).1 with now := (allEmpty s).1.now + tick } with ⟨s1, count⟩
       rw [hpe] at h2
